@@ -49,6 +49,7 @@ type FuncContract struct {
 	Inline       bool // force inlining at call sites instead of modular use
 	Terminate    bool
 	Captures     []*Clause // closures: facts about captured variables, checked where the closure is created
+	NoPanicProps []string  // properties the nopanic obligations belong to (empty: all)
 	IfaceCheck   bool      // this is an interface contract being checked against one implementer
 	AlsoFor      []string  // properties for which only the explicitly tagged obligations of this function count
 	GlobalInvs   []*TypeDecl
@@ -694,8 +695,10 @@ func (cs *ContractSet) parseLines(fname string, lines []struct {
 				}
 			}
 		case "nopanic":
+			// nopanic [// Cxx ...]: panic sites are obligations (only for the listed properties when tags are given)
 			if cur != nil {
 				cur.NoPanic = true
+				cur.NoPanicProps = rePropID.FindAllString(t, -1)
 			}
 		case "pure":
 			if cur != nil {
